@@ -16,7 +16,7 @@ PROP = {
                                      "Adaptive-Simpson-within-1e-9-on-estimator-regular-integrands": 2500, "Trapezoidal-within-1e-6-where-the-a-priori-bound-applies": 500,
                                      "integrate-2d-equals-product-of-1d-integrals": 200, "integrate-3d-equals-product-of-1d-integrals": 200,
                                      "each-argument-receives-the-variable-of-its-own-limits": 400, "spherical-overload-value": 200,
-                                     "reversing-limits-negates-exactly": 3000, "unknown-method-name-terminates-with-diagnostic": 30}},
+                                     "reversing-limits-negates": 3000, "unknown-method-name-terminates-with-diagnostic": 30}},
                "thorough": {"cases": 900000, "distinct_nontrivial": 400000, "ticks": {"Simpson.panel": 10000000},
                             "clauses": {"Gauss-Legendre-within-1e-9": 100000, "integrate-3d-equals-product-of-1d-integrals": 20000, "spherical-overload-value": 20000}}},
     "technique": "runtime monitoring: closed-form long double references with the error measured relative to the integral of |f|, integrand wrappers recording every argument "
